@@ -4,7 +4,7 @@ import shutil
 
 from common import cps, uncps, hx, unhx, drv, run_cli
 
-NAME_CHARS = "ABCDEFGHIJKLMNOPQRSTUVWXYZabcdefghijklmnopqrstuvwxyz0123456789_-+!#$%&@~"
+NAME_CHARS = "ABCDEFGHIJKLMNOPQRSTUVWXYZabcdefghijklmnopqrstuvwxyz0123456789_-+!#$%&@~*'()[]{}^`;="
 SIZES = [0, 1, 2, 253, 254, 255, 256, 507, 508, 509, 761, 762, 763, 1015, 1016, 1017]
 
 
@@ -13,8 +13,18 @@ def tar(argv, cwd=None):
     return run_cli(TapeArchiveCli().run, argv, cwd=cwd)
 
 
+TAPE_CONFUSABLE = ["bas", "csv", "BAS", "bin", "a", "1", "12345678.123", "0.0", "bas.csv", "csv.bas", "csv.bas,a", "x.csv", "x.CSV", "a.b"]
+
+
 def gen_name(rng, used, ext_choices=None):
     for _ in range(100):
+        if ext_choices is None and rng.random() < 0.12:
+            full = rng.choice(TAPE_CONFUSABLE)
+            key = catalog_name(full)
+            if key not in used:
+                used.add(key)
+                return full
+            continue
         n = "".join(rng.choice(NAME_CHARS) for _ in range(rng.choice([1, 2, 3, 5, 8, 8])))
         if n[0] == "-":  # would be read as an option by any command line parser
             n = "X" + n[1:]
